@@ -49,3 +49,32 @@ Example C16_nonvacuous :
                {| vs := [(0,1,0); (1,1,0); (2,1,0)]%Z; cs := [[0;1]]; ds := [] |} ] in
   Forall good (removelast ins) /\ Forall inp_ok ins /\ merge_cells ins = [[1;2];[0;1];[3;4]].
 Proof. split; [|split]; [repeat constructor; discriminate | repeat constructor | reflexivity]. Qed.
+
+(* Data: for inputs whose data sets have distinct (name, type, association) labels and one value per vertex / cell,
+   every data set of every input is found in the merged object under the same label — never under a renamed one —
+   in an array with one entry per merged vertex / cell, and its values sit at the offset of its input. *)
+Theorem C16_merged_data : forall ins,
+  Forall wf_inp ins ->
+  forall k i d, nth_error ins k = Some i -> In d (ds i) ->
+  exists v, lookup (lbl0 d) (merge_data ins) = Some v
+         /\ length v = total ins (dcell d)
+         /\ slice v (doff ins k (dcell d)) (length (dvals d)) = dvals d.
+Proof. exact merged_data. Qed.
+Print Assumptions C16_merged_data.
+
+Theorem C16_merged_data_labels : forall ins l v,
+  Forall wf_inp ins -> lookup l (merge_data ins) = Some v -> lren l = None.
+Proof. exact merged_data_names. Qed.
+Print Assumptions C16_merged_data_labels.
+
+Example C16_data_nonvacuous :
+  let ins := [ {| vs := [(0,0,0); (1,0,0)]%Z; cs := [[0;1]]; ds := [ {| dname := 1; dtype := 1; dcell := false; dvals := [Some 5%Z; None] |} ] |};
+               {| vs := [(0,1,0); (1,1,0); (2,1,0)]%Z; cs := [[0;1];[1;2]];
+                  ds := [ {| dname := 2; dtype := 2; dcell := true; dvals := [Some 7%Z; Some 8%Z] |};
+                          {| dname := 1; dtype := 1; dcell := false; dvals := [None; Some 6%Z; Some 9%Z] |} ] |} ] in
+  Forall wf_inp ins
+  /\ out_children ins = [ (1, false, [Some 5%Z; None; None; Some 6%Z; Some 9%Z]); (2, true, [None; Some 7%Z; Some 8%Z]) ].
+Proof.
+  split; [|reflexivity].
+  repeat constructor; simpl; try (intros [H|H]; try discriminate H; try contradiction); try tauto.
+Qed.
